@@ -109,33 +109,35 @@ func (s *System) ActorOf(actor vivid.Actor, options ...vivid.ActorOption) (vivid
 }
 
 func (s *System) Start() error {
-	var stateError = func(s *System) error {
+	// 状态检查与启动链必须在同一个临界区内完成：若在设置 status = start 之后、根 Actor 创建之前释放锁，
+	// 并发的 Stop 会看到 status == start 但 s.Context == nil，于是既不终止根 Actor 也不取消上下文就返回 nil，
+	// 之后系统继续运行且再也无法停止（后续 Stop 均返回 already stopped）
+	startErr, stateError := func(s *System) (error, error) {
 		s.statusLock.Lock()
 		defer s.statusLock.Unlock()
 		switch s.status {
 		case start:
 			s.Logger().Warn("actor system already started")
-			return vivid.ErrorActorSystemAlreadyStarted
+			return nil, vivid.ErrorActorSystemAlreadyStarted
 		case stop:
 			s.Logger().Warn("actor system already stopped")
-			return vivid.ErrorActorSystemAlreadyStopped
+			return nil, vivid.ErrorActorSystemAlreadyStopped
 		default:
 			s.status = start
-			return nil
 		}
+
+		s.Logger().Debug("actor system starting")
+
+		return chain.New(chain.WithContext(s.options.Context)).
+			Append(systemChains.spawnGuardActor(s)).
+			Append(systemChains.initializeMetrics(s)).
+			Append(systemChains.initializeRemoting(s)).
+			Append(systemChains.initializeCluster(s)).
+			Run(), nil
 	}(s)
 	if stateError != nil {
 		return stateError
 	}
-
-	s.Logger().Debug("actor system starting")
-
-	startErr := chain.New(chain.WithContext(s.options.Context)).
-		Append(systemChains.spawnGuardActor(s)).
-		Append(systemChains.initializeMetrics(s)).
-		Append(systemChains.initializeRemoting(s)).
-		Append(systemChains.initializeCluster(s)).
-		Run()
 
 	if startErr != nil {
 		s.Logger().Error("actor system start failed", log.Any("err", startErr))
